@@ -164,7 +164,21 @@ class PG(object):
                     out.extend([['PRINT#1,A%;S$', self.simple()] for _ in range(r.randint(1, 2))])
                     out.extend(self.block(1))
                     out.append(['WRITE#1,N%,T$', 'CLOSE 1'])
-                    out.append(['OPEN "I",1,"%s"' % fn, 'LINE INPUT#1,T$', 'PRINT T$;EOF(1)', 'CLOSE 1'])
+                    if r.random() < 0.5:
+                        # append in a second session of the file, spread over several lines
+                        out.append(['OPEN "A",1,"%s"' % fn])
+                        out.append(['PRINT#1,"app";N%'])
+                        out.extend(self.block(1))
+                        out.append(['WRITE#1,"q,q",A%', 'CLOSE 1'])
+                    if r.random() < 0.5:
+                        out.append(['OPEN "I",1,"%s"' % fn, 'LINE INPUT#1,T$', 'PRINT T$;EOF(1)', 'CLOSE 1'])
+                    else:
+                        # read it back item by item with other statements in between (read-ahead buffer in flight)
+                        out.append(['OPEN "I",1,"%s"' % fn])
+                        out.append(['LINE INPUT#1,T$', 'PRINT T$;EOF(1);LOF(1)'])
+                        out.extend(self.block(1))
+                        out.append(['WHILE NOT EOF(1)', 'LINE INPUT#1,T$', 'PRINT "r:";T$', 'WEND'])
+                        out.append(['CLOSE 1'])
                 else:
                     out.append(['OPEN "R",2,"%s",16' % fn, 'FIELD 2,4 AS RA$,12 AS RB$'])
                     out.append(['LSET RA$=MKI$(A%)+"zz"', 'RSET RB$=S$', 'PUT 2,%d' % r.randint(1, 4)])
